@@ -1,18 +1,46 @@
 //! C14 — decision trees: structure walk through the public API (`root_node`, `TreeNode::{split,
-//! children, prediction, depth, is_leaf}`, `feature_importance`, `predict`) compared with the Lean
-//! model, and the property's clauses recomputed from first principles on the fitted tree.
+//! children, prediction, depth, is_leaf}`, `feature_importance`, `predict`, `num_leaves`,
+//! `max_depth`, `features`, `iter_nodes`) compared with the Lean model, and the property's clauses
+//! recomputed from first principles on the fitted tree.
 //!
-//! Inputs are lattice data: features `int / 2^xd`, weights `int / 2^wd`, limits in quarter
-//! units, so every weight sum, every `<`/`<=` on weights and every midpoint is exact; only the f32
-//! impurity arithmetic rounds (see Drv/C14.lean for how the comparison handles that).
+//! Inputs are lattice data: features `int / 2^xd` (exact in the feature type, `f64` or `f32`),
+//! weights `f32(int / (2^wd * wq))`, limits in quarter units.  With `wq = 1` every weight sum, every
+//! `<`/`<=` on weights and every midpoint is exact; only the f32 impurity arithmetic rounds, and the
+//! model performs the same f32 operations in the same order (label order of `sorted_frequencies`),
+//! so the whole response is compared bit for bit.  `wq = 10` (decimal weights 0.1 … 0.9) probes the
+//! region where the running `+=` / `-=` class weights of the sweep are no longer the exact weights of
+//! the applied partition.
+//!
+//! `form` selects the calling form on the Rust side (memory layout of the records, dataset shape,
+//! way `predict` is called); the model does not depend on it.
 use crate::util::*;
+use linfa::dataset::{AsSingleTargets, CountedTargets, Labels};
 use linfa::prelude::*;
 use linfa::Label;
-use linfa_trees::{DecisionTree, SplitQuality, TreeNode};
-use ndarray::{Array1, Array2};
+use linfa_trees::{DecisionTree, DecisionTreeParams, SplitQuality, TreeNode};
+use ndarray::{s, Array1, Array2, ArrayBase, ArrayView2, Data, Ix2, ShapeBuilder};
+use std::cell::RefCell;
+
+pub const N_FORMS: usize = 14;
+/// tolerance of `decrease_actual`: the reported decrease went through f32 impurity arithmetic
+/// (unit roundoff 6e-8, a handful of operations on values <= log2(6)); the recomputation is f64.
+/// Largest deviations observed on the unchanged tree (thorough tier, seeds 1-3): Gini 1.6e-7 with
+/// dyadic and 2.7e-7 with decimal weights, entropy 5.3e-7 with dyadic weights; entropy with decimal
+/// weights 2.8e-6 (the running `-=` leaves a weight of ~1e-7 instead of 0 for a class that has left
+/// the right side, and `-x log2 x` has unbounded slope at 0).  About three times the observed.
+fn dec_tol(entropy: bool, dyadic: bool) -> f64 {
+    match (entropy, dyadic) {
+        (false, true) => 5e-7,
+        (false, false) => 1e-6,
+        (true, true) => 1.5e-6,
+        (true, false) => 1e-5,
+    }
+}
 
 #[derive(Clone)]
 struct Case {
+    ft32: bool,
+    form: usize,
     entropy: bool,
     md: Option<usize>,
     mws4: u32,
@@ -23,17 +51,40 @@ struct Case {
     ys: Vec<usize>,
     ws: Option<Vec<i64>>,
     wd: u32,
+    wq: u32,
     pr: Vec<Vec<i64>>,
     p: usize,
-    /// label type: 0 usize, 1 bool, 2 String
+    /// label type: 0 usize ascending, 1 bool, 2 String (reverse alphabetical), 3 usize scrambled
     lt: u8,
+}
+
+/// number of classes the model sees: class indices are `0..k`
+fn n_classes(ys: &[usize]) -> usize {
+    ys.iter().copied().max().map(|m| m + 1).unwrap_or(0)
+}
+
+fn scr(c: usize) -> usize {
+    ((c * 5 + 2) % 7) * 11 + 1
+}
+
+/// class indices in the order of the label type
+fn label_order(lt: u8, k: usize) -> Vec<usize> {
+    let mut v: Vec<usize> = (0..k).collect();
+    match lt {
+        0 | 1 => {}
+        2 => v.reverse(),
+        _ => v.sort_by_key(|&c| scr(c)),
+    }
+    v
 }
 
 impl Case {
     fn op(&self) -> String {
         let l2 = |v: &Vec<Vec<i64>>| if v.is_empty() { String::new() } else { list2(v.iter().map(|r| r.iter()), |x| x.to_string()) };
         format!(
-            "fit crit={} md={} mws4={} mwl4={} mid={} xd={} p={} xs={} ys={} ws={} wd={} pr={} lt={}",
+            "fit ft={} form={} crit={} md={} mws4={} mwl4={} mid={} xd={} p={} xs={} ys={} lo={} ws={} wd={} wq={} pr={} lt={}",
+            if self.ft32 { 32 } else { 64 },
+            self.form,
             if self.entropy { "e" } else { "g" },
             self.md.map(|d| d.to_string()).unwrap_or("none".into()),
             self.mws4,
@@ -43,8 +94,10 @@ impl Case {
             self.p,
             l2(&self.xs),
             list(self.ys.iter(), |y| y.to_string()),
+            list(label_order(self.lt, n_classes(&self.ys)).iter(), |y| y.to_string()),
             self.ws.as_ref().map(|w| list(w.iter(), |x| x.to_string())).unwrap_or("none".into()),
             self.wd,
+            self.wq,
             l2(&self.pr),
             self.lt
         )
@@ -52,14 +105,26 @@ impl Case {
     fn x(&self, i: usize, f: usize) -> f64 {
         self.xs[i][f] as f64 / (1u64 << self.xd) as f64
     }
-    fn w(&self, i: usize) -> f64 {
+    /// the weight the dataset holds (an `f32`)
+    fn w32(&self, i: usize) -> f32 {
         match &self.ws {
-            Some(w) => w[i] as f64 / (1u64 << self.wd) as f64,
+            Some(w) => (w[i] as f64 / ((1u64 << self.wd) as f64 * self.wq as f64)) as f32,
             None => 1.0,
         }
     }
+    fn w(&self, i: usize) -> f64 {
+        self.w32(i) as f64
+    }
     fn class(&self) -> String {
-        format!("crit={};weights={}", if self.entropy { "entropy" } else { "gini" }, if self.ws.is_some() { "yes" } else { "no" })
+        format!(
+            "crit={};weights={}",
+            if self.entropy { "entropy" } else { "gini" },
+            match (&self.ws, self.wq) {
+                (None, _) => "no",
+                (Some(_), 1) => "yes",
+                _ => "decimal",
+            }
+        )
     }
 }
 
@@ -72,13 +137,20 @@ fn impurity(entropy: bool, fr: &[f64]) -> f64 {
     }
 }
 
+thread_local! {
+    static MAX_DEV: RefCell<[f64; 4]> = RefCell::new([0.0; 4]);
+}
+
 struct Walk<'a, L> {
     c: &'a Case,
     k: usize,
+    mid: f64,
     dec: &'a dyn Fn(&L) -> Option<usize>,
     toks: Vec<String>,
-    tl: bool,
-    has_split: bool,
+    n_splits: usize,
+    n_leaves: usize,
+    max_depth: usize,
+    feats: Vec<usize>,
     /// leaf prediction reached by every training row (fit-time routing)
     leaf_pred: Vec<Option<usize>>,
 }
@@ -91,18 +163,21 @@ impl<'a, L: Label> Walk<'a, L> {
         }
         f
     }
-    fn go(&mut self, ctx: &mut Ctx, node: &TreeNode<f64, L>, rows: Vec<usize>, depth: usize) {
+    fn go<F: linfa::Float>(&mut self, ctx: &mut Ctx, node: &TreeNode<F, L>, rows: Vec<usize>, depth: usize) {
         let c = self.c;
         let class = c.class();
         ctx.require(node.depth() == depth, "depth_field", &class, || format!("node at depth {} reports depth {}", depth, node.depth()));
         if let Some(md) = c.md {
             ctx.require(depth <= md, "max_depth", &class, || format!("node at depth {} with max_depth {}", depth, md));
         }
+        self.max_depth = self.max_depth.max(depth);
         let ch = node.children();
         let (l, r) = (ch[0].as_ref(), ch[1].as_ref());
         let (f, s, d) = node.split();
-        let dtok = format!("{}{}", if self.tl { "~" } else { "" }, hex64c(d));
+        let (s, d) = (s.to_f64().unwrap(), d.to_f64().unwrap());
+        let dtok = hex64c(d);
         if node.is_leaf() {
+            self.n_leaves += 1;
             let pred = node.prediction();
             let pi = pred.as_ref().and_then(|p| (self.dec)(p));
             ctx.require(pi.is_some(), "seen_label", &class, || format!("leaf predicts {:?}, not a training label", pred));
@@ -112,7 +187,10 @@ impl<'a, L: Label> Walk<'a, L> {
             if pi.is_some() && !rows.is_empty() {
                 let fr = self.freq(&rows);
                 let mx = fr.iter().cloned().fold(f64::MIN, f64::max);
-                ctx.require(fr[pidx] == mx, "leaf_mode", &class, || format!("leaf at depth {} predicts class {} with weight {}, class weights {:?}", depth, pidx, fr[pidx], fr));
+                // decimal weights: the class weights of the code are f32 running sums; allow the same
+                // few f32 roundings of the node weight as for `min_weight_leaf`
+                let slack = if c.wq == 1 { 0.0 } else { 4.0 * fr.iter().sum::<f64>() * (0.5f64).powi(24) };
+                ctx.require(fr[pidx] >= mx - slack, "leaf_mode", &class, || format!("leaf at depth {} predicts class {} with weight {}, class weights {:?}", depth, pidx, fr[pidx], fr));
             }
             for &i in &rows {
                 self.leaf_pred[i] = pi;
@@ -123,14 +201,19 @@ impl<'a, L: Label> Walk<'a, L> {
                 let (side, child) = if let Some(x) = l { ("l", x) } else { ("r", r.unwrap()) };
                 self.toks.extend(["H".to_string(), f.to_string(), hex64(s), dtok, pidx.to_string(), node.depth().to_string(), side.to_string()]);
                 // the kept child is walked for the correspondence only
-                let mut sub = Walk { c, k: self.k, dec: self.dec, toks: vec![], tl: self.tl, has_split: false, leaf_pred: vec![None; c.xs.len()] };
+                let mut sub = Walk { c, k: self.k, mid: self.mid, dec: self.dec, toks: vec![], n_splits: 0, n_leaves: 0, max_depth: 0, feats: vec![], leaf_pred: vec![None; c.xs.len()] };
                 let mut dummy = Ctx { fails: vec![], trivial: false };
                 sub.go(&mut dummy, child, rows.clone(), depth + 1);
                 self.toks.extend(sub.toks);
+                self.n_leaves += sub.n_leaves;
+                self.n_splits += sub.n_splits;
+                self.max_depth = self.max_depth.max(sub.max_depth);
+                self.feats.extend(sub.feats);
             }
             return;
         }
-        self.has_split = true;
+        self.n_splits += 1;
+        self.feats.push(f);
         self.toks.extend(["N".to_string(), f.to_string(), hex64(s), dtok, node.depth().to_string()]);
         ctx.require(l.is_some() && r.is_some(), "two_children", &class, || format!("split node at depth {} lacks a child", depth));
         ctx.require(f < c.p, "feature_in_range", &class, || format!("feature index {} of {}", f, c.p));
@@ -146,12 +229,27 @@ impl<'a, L: Label> Walk<'a, L> {
         let rrows: Vec<usize> = rows.iter().copied().filter(|&i| !(c.x(i, f) <= s)).collect();
         let (fp, fl, fr) = (self.freq(&rows), self.freq(&lrows), self.freq(&rrows));
         let (wp, wl, wr): (f64, f64, f64) = (fp.iter().sum(), fl.iter().sum(), fr.iter().sum());
-        ctx.require(wl >= mwl && wr >= mwl, "min_weight_leaf", &class, || format!("split at depth {} leaves weight {} / {} , min_weight_leaf {}", depth, wl, wr, mwl));
+        // dyadic weights: every weight sum is exact, the comparison is exact.  Decimal weights are
+        // f32 roundings of k/10; the code's running f32 sums and this f64 sum of the same f32 weights
+        // may differ by a few f32 roundings of the node weight: allowance 4 * 2^-24 * total weight
+        let slack = if c.wq == 1 { 0.0 } else { 4.0 * wp * (0.5f64).powi(24) };
+        ctx.require(wl >= mwl - slack && wr >= mwl - slack, "min_weight_leaf", &class, || format!("split at depth {} leaves weight {} / {} , min_weight_leaf {}", depth, wl, wr, mwl));
         if wl > 0.0 && wr > 0.0 {
             let actual = impurity(c.entropy, &fp) - (wl / wp * impurity(c.entropy, &fl) + wr / wp * impurity(c.entropy, &fr));
-            ctx.require((actual - d).abs() <= 1e-5, "decrease_actual", &class, || format!("split at depth {} feature {} threshold {} reports decrease {} but the {} decrease is {}", depth, f, s, d, if c.entropy { "entropy" } else { "gini" }, actual));
+            MAX_DEV.with(|m| {
+                let mut m = m.borrow_mut();
+                let slot = (c.entropy as usize) * 2 + (c.wq != 1) as usize;
+                if (actual - d).abs() > m[slot] {
+                    m[slot] = (actual - d).abs();
+                }
+            });
+            ctx.require((actual - d).abs() <= dec_tol(c.entropy, c.wq == 1), "decrease_actual", &class, || format!("split at depth {} feature {} threshold {} reports decrease {} but the {} decrease is {}", depth, f, s, d, if c.entropy { "entropy" } else { "gini" }, actual));
+        } else {
+            // an empty side: `two_children` / `min_weight_leaf` report it when min_weight_leaf > 0;
+            // with min_weight_leaf = 0 the statement's "actual decrease" has no defined value
+            ctx.require(c.mwl4 == 0, "decrease_actual", &class, || format!("split at depth {} has an empty side (weights {} / {}): no actual decrease exists", depth, wl, wr));
         }
-        ctx.require(d >= c.mid, "decrease_ge_min", &class, || format!("split at depth {} reports decrease {} < min_impurity_decrease {}", depth, d, c.mid));
+        ctx.require(d >= self.mid, "decrease_ge_min", &class, || format!("split at depth {} reports decrease {} < min_impurity_decrease {}", depth, d, self.mid));
         if let Some(x) = l {
             self.go(ctx, x, lrows, depth + 1);
         }
@@ -161,57 +259,212 @@ impl<'a, L: Label> Walk<'a, L> {
     }
 }
 
-fn fit_case<L: Label + std::fmt::Debug>(c: &Case, ctx: &mut Ctx, enc: &dyn Fn(usize) -> L, dec: &dyn Fn(&L) -> Option<usize>) -> String {
+fn fit_ds<F: linfa::Float, L: Label + std::fmt::Debug, D: Data<Elem = F>, T: AsSingleTargets<Elem = L> + Labels<Elem = L>>(
+    params: &DecisionTreeParams<F, L>,
+    ds: &DatasetBase<ArrayBase<D, Ix2>, T>,
+) -> Result<DecisionTree<F, L>, linfa::Error> {
+    params.fit(ds)
+}
+
+/// a view with strides (2 rows, 2 columns) into a larger array holding `a`
+fn strided<F: linfa::Float>(a: &Array2<F>) -> Array2<F> {
+    let (n, p) = a.dim();
+    let mut big = Array2::from_elem((2 * n + 1, 2 * p + 1), F::cast(-777.0));
+    big.slice_mut(s![1..;2, ..2 * p;2]).assign(a);
+    big
+}
+fn strided_view<F: linfa::Float>(big: &Array2<F>, p: usize) -> ArrayView2<'_, F> {
+    big.slice(s![1..;2, ..2 * p;2])
+}
+fn f_order<F: linfa::Float>(a: &Array2<F>) -> Array2<F> {
+    let mut b = Array2::zeros(a.dim().f());
+    b.assign(a);
+    b
+}
+/// rows stored in reverse, seen through a view with a negative row stride
+fn reversed<F: linfa::Float>(a: &Array2<F>) -> Array2<F> {
+    a.slice(s![..;-1, ..]).to_owned()
+}
+
+fn fit_case<F: linfa::Float, L: Label + Default + std::fmt::Debug>(c: &Case, ctx: &mut Ctx, stats: &RefCell<Vec<String>>, enc: &dyn Fn(usize) -> L, dec: &dyn Fn(&L) -> Option<usize>) -> String {
     let n = c.xs.len();
     let class = c.class();
-    let k = c.ys.iter().copied().max().map(|m| m + 1).unwrap_or(0);
-    let recs = Array2::from_shape_fn((n, c.p), |(i, j)| c.x(i, j));
+    let k = n_classes(&c.ys);
+    let (ff, pf) = (c.form % 7, c.form % 8);
+    let recs: Array2<F> = Array2::from_shape_fn((n, c.p), |(i, j)| F::cast(c.x(i, j)));
     let tg: Array1<L> = Array1::from_shape_fn(n, |i| enc(c.ys[i]));
-    let mut ds = DatasetBase::new(recs.clone(), tg);
-    if c.ws.is_some() {
-        ds = ds.with_weights(Array1::from_shape_fn(n, |i| c.w(i) as f32));
-    }
-    let params = DecisionTree::<f64, L>::params()
+    let wts: Option<Array1<f32>> = c.ws.as_ref().map(|_| Array1::from_shape_fn(n, |i| c.w32(i)));
+    let mid_f: F = F::cast(c.mid);
+    let params = DecisionTree::<F, L>::params()
         .split_quality(if c.entropy { SplitQuality::Entropy } else { SplitQuality::Gini })
         .max_depth(c.md)
         .min_weight_split(c.mws4 as f32 / 4.0)
         .min_weight_leaf(c.mwl4 as f32 / 4.0)
-        .min_impurity_decrease(c.mid);
-    let tree = match params.fit(&ds) {
+        .min_impurity_decrease(mid_f);
+    // ---- the calling form of `fit`
+    macro_rules! with_w {
+        ($ds:expr) => {{
+            let ds = $ds;
+            match &wts {
+                Some(w) => ds.with_weights(w.clone()),
+                None => ds,
+            }
+        }};
+    }
+    let fitted = match ff {
+        0 => fit_ds(&params, &with_w!(DatasetBase::new(recs.clone(), tg.clone()))),
+        1 => fit_ds(&params, &with_w!(DatasetBase::new(f_order(&recs), tg.clone()))),
+        2 => {
+            let big = strided(&recs);
+            fit_ds(&params, &with_w!(DatasetBase::new(strided_view(&big, c.p), tg.view())))
+        }
+        3 => {
+            let rev = reversed(&recs);
+            fit_ds(&params, &with_w!(DatasetBase::new(rev.slice(s![..;-1, ..]), tg.clone())))
+        }
+        4 => {
+            let ds = with_w!(DatasetBase::new(recs.clone(), tg.clone()));
+            fit_ds(&params, &ds.view())
+        }
+        5 => {
+            let names: Vec<String> = (0..c.p).map(|j| format!("col{}", j)).collect();
+            fit_ds(&params, &with_w!(DatasetBase::new(f_order(&recs), tg.clone())).with_feature_names(names))
+        }
+        _ => fit_ds(&params, &with_w!(DatasetBase::new(recs.clone(), CountedTargets::new(tg.clone())))),
+    };
+    let tree = match fitted {
         Ok(t) => t,
         Err(e) => return format!("err {:?}", e).replace(' ', "_"),
     };
-    let mut distinct: Vec<usize> = c.ys.clone();
-    distinct.sort();
-    distinct.dedup();
-    let tl = c.entropy || distinct.len() > 2;
-    let mut w = Walk { c, k, dec, toks: vec![], tl, has_split: false, leaf_pred: vec![None; n] };
+    let mut w = Walk { c, k, mid: mid_f.to_f64().unwrap(), dec, toks: vec![], n_splits: 0, n_leaves: 0, max_depth: 0, feats: vec![], leaf_pred: vec![None; n] };
     w.go(ctx, tree.root_node(), (0..n).collect(), 0);
-    // importances
-    let imp = tree.feature_importance();
-    if w.has_split {
+    // ---- importances
+    let imp: Vec<f64> = tree.feature_importance().iter().map(|x| x.to_f64().unwrap()).collect();
+    if w.n_splits > 0 {
         let s: f64 = imp.iter().sum();
-        ctx.require(imp.iter().all(|x| *x >= 0.0) && (s - 1.0).abs() <= 1e-9, "importances", &class, || format!("importances {:?} (sum {})", imp, s));
+        let tol = if c.ft32 { 1e-6 } else { 1e-9 };
+        ctx.require(imp.iter().all(|x| *x >= 0.0) && (s - 1.0).abs() <= tol, "importances", &class, || format!("importances {:?} (sum {})", imp, s));
     }
     ctx.require(imp.len() == c.p, "importances_len", &class, || format!("{} importances for {} features", imp.len(), c.p));
-    // prediction of the training rows = prediction of the leaf they were assigned while fitting
+    // ---- accessors: num_leaves, max_depth, features, iter_nodes against the walk through children()
+    let nl = tree.num_leaves();
+    ctx.require(nl == w.n_leaves, "num_leaves", &class, || format!("num_leaves() = {} but the tree has {} leaf nodes", nl, w.n_leaves));
+    let dmax = tree.max_depth();
+    ctx.require(dmax == w.max_depth, "max_depth_accessor", &class, || format!("max_depth() = {} but the deepest node is at depth {}", dmax, w.max_depth));
+    if let Some(md) = c.md {
+        ctx.require(dmax <= md, "max_depth", &class, || format!("max_depth() = {} with max_depth parameter {}", dmax, md));
+    }
+    let mut feats = tree.features();
+    feats.sort();
+    let mut wf = w.feats.clone();
+    wf.sort();
+    wf.dedup();
+    ctx.require(feats == wf, "features", &class, || format!("features() = {:?} but the split nodes use {:?}", feats, wf));
+    // level order by hand
+    let mut level: Vec<&TreeNode<F, L>> = vec![tree.root_node()];
+    let mut queue_pos = 0;
+    while queue_pos < level.len() {
+        let nd = level[queue_pos];
+        queue_pos += 1;
+        for ch in nd.children() {
+            if let Some(x) = ch.as_ref() {
+                level.push(x);
+            }
+        }
+    }
+    let it: Vec<&TreeNode<F, L>> = tree.iter_nodes().collect();
+    ctx.require(it.len() == level.len() && it.iter().zip(level.iter()).all(|(a, b)| std::ptr::eq(*a, *b)), "iter_nodes", &class, || format!("iter_nodes() yields {} nodes in an order that is not the level order of the {} nodes", it.len(), level.len()));
+    let bfs = list(it.iter(), |nd| {
+        if nd.is_leaf() {
+            format!("{}L{}", nd.depth(), nd.prediction().as_ref().and_then(|p| dec(p)).unwrap_or(usize::MAX))
+        } else {
+            format!("{}N{}", nd.depth(), nd.split().0)
+        }
+    });
+    // ---- prediction of the training rows = prediction of the leaf they were assigned while fitting
     let np = c.pr.len();
-    let all = Array2::from_shape_fn((n + np, c.p), |(i, j)| if i < n { c.x(i, j) } else { c.pr[i - n][j] as f64 / (1u64 << c.xd) as f64 });
-    let pred = tree.predict(&all);
+    let all: Array2<F> = Array2::from_shape_fn((n + np, c.p), |(i, j)| F::cast(if i < n { c.x(i, j) } else { c.pr[i - n][j] as f64 / (1u64 << c.xd) as f64 }));
+    let pred: Array1<L> = match pf {
+        0 => tree.predict(&all),
+        1 => tree.predict(&f_order(&all)),
+        2 => {
+            let big = strided(&all);
+            tree.predict(&strided_view(&big, c.p))
+        }
+        3 => {
+            let ds = DatasetBase::new(all.clone(), Array1::<usize>::zeros(n + np));
+            tree.predict(&ds)
+        }
+        4 => {
+            let out: DatasetBase<Array2<F>, Array1<L>> = tree.predict(all.clone());
+            out.targets().clone()
+        }
+        5 => {
+            let ds = DatasetBase::new(f_order(&all), Array1::<usize>::zeros(n + np));
+            let out: DatasetBase<Array2<F>, Array1<L>> = tree.predict(ds);
+            out.targets().clone()
+        }
+        6 => {
+            let rev = reversed(&all);
+            let out: DatasetBase<ArrayView2<F>, Array1<L>> = tree.predict(rev.slice(s![..;-1, ..]));
+            out.targets().clone()
+        }
+        _ => {
+            let mut y: Array1<L> = Array1::default(n + np);
+            tree.predict_inplace(&all.view(), &mut y);
+            y
+        }
+    };
     let pidx: Vec<Option<usize>> = pred.iter().map(|p| dec(p)).collect();
-    for i in 0..n {
+    ctx.require(pidx.len() == n + np, "predict_len", &class, || format!("{} predictions for {} rows", pidx.len(), n + np));
+    for i in 0..n.min(pidx.len()) {
         ctx.require(pidx[i].is_some() && pidx[i] == w.leaf_pred[i], "routing_consistent", &class, || format!("row {} predicted {:?}, the leaf it was assigned while fitting predicts {:?}", i, pidx[i], w.leaf_pred[i]));
     }
-    for i in 0..n + np {
+    for i in 0..pidx.len() {
         ctx.require(pidx[i].is_some(), "seen_label", &class, || format!("prediction {:?} is not a training label", pred[i]));
     }
+    {
+        let mut st = stats.borrow_mut();
+        let ft = if c.ft32 { "f32" } else { "f64" };
+        st.push(format!("fitted:ft={}", ft));
+        st.push(format!("fitted:fit_form={}", ff));
+        st.push(format!("fitted:predict_form={}", pf));
+        st.push(format!("fitted:label_type={}", ["usize", "bool", "string", "usize_scrambled"][c.lt as usize]));
+        st.push(format!("fitted:weights={}", class.rsplit('=').next().unwrap()));
+        st.push(format!("fitted:crit={}", if c.entropy { "entropy" } else { "gini" }));
+        st.push(format!("splits:{}", match w.n_splits { 0 => "0", 1..=2 => "1-2", 3..=6 => "3-6", _ => "7+" }));
+        if w.n_splits > 0 {
+            st.push(format!("split_tree:ft={}", ft));
+            st.push(format!("split_tree:crit={};classes={}", if c.entropy { "entropy" } else { "gini" }, if k > 2 { "3+" } else { "2" }));
+        }
+        st.push(format!("tree_depth:{}", if w.max_depth >= 4 { "4+".to_string() } else { w.max_depth.to_string() }));
+        if wf.len() > 1 {
+            st.push("features_used:2+".to_string());
+        }
+    }
     format!(
-        "ok tree={} imp={} pred={} margin=~{}",
+        "ok tree={} imp={} pred={} nl={} dmax={} feats={} bfs={}",
         w.toks.join(","),
-        list(imp.iter(), |x| format!("{}{}", if tl { "~" } else { "" }, hex64c(*x))),
+        list(imp.iter(), |x| hex64c(*x)),
         list(pidx.iter(), |x| x.map(|v| v.to_string()).unwrap_or("?".into())),
-        hex64(1.0)
+        nl,
+        dmax,
+        list(feats.iter(), |f| f.to_string()),
+        bfs
     )
+}
+
+fn fit_lab<F: linfa::Float>(c: &Case, ctx: &mut Ctx, stats: &RefCell<Vec<String>>, seen: &[usize]) -> String {
+    let s2 = seen.to_vec();
+    match c.lt {
+        0 => fit_case::<F, usize>(c, ctx, stats, &|k| k * 7 + 3, &move |l: &usize| if *l >= 3 && (*l - 3) % 7 == 0 && s2.contains(&((*l - 3) / 7)) { Some((*l - 3) / 7) } else { None }),
+        1 => fit_case::<F, bool>(c, ctx, stats, &|k| k == 1, &move |l: &bool| if s2.contains(&(*l as usize)) { Some(*l as usize) } else { None }),
+        2 => fit_case::<F, String>(c, ctx, stats, &|k| format!("cls-{}", (b'f' - k as u8) as char), &move |l: &String| {
+            let b = l.as_bytes();
+            if b.len() == 5 && l.starts_with("cls-") && b[4] <= b'f' && s2.contains(&((b'f' - b[4]) as usize)) { Some((b'f' - b[4]) as usize) } else { None }
+        }),
+        _ => fit_case::<F, usize>(c, ctx, stats, &scr, &move |l: &usize| (0..7).find(|&k| scr(k) == *l).filter(|k| s2.contains(k))),
+    }
 }
 
 fn run_case(em: &mut Em, c: Case) {
@@ -222,57 +475,65 @@ fn run_case(em: &mut Em, c: Case) {
     dl.dedup();
     em.count(&format!("classes:{}", dl.len()));
     em.count(if c.entropy { "crit:entropy" } else { "crit:gini" });
-    em.count(if c.ws.is_some() { "weights:yes" } else { "weights:no" });
-    em.count(&format!("label_type:{}", ["usize", "bool", "string"][c.lt as usize]));
+    em.count(&format!("weights:{}", c.class().rsplit('=').next().unwrap()));
+    em.count(&format!("label_type:{}", ["usize", "bool", "string", "usize_scrambled"][c.lt as usize]));
     em.count(&format!("max_depth:{}", c.md.map(|d| if d >= 4 { "4+".to_string() } else { d.to_string() }).unwrap_or("none".into())));
     em.count(&format!("mwl4:{}", c.mwl4));
+    em.count(if c.ft32 { "ft:f32" } else { "ft:f64" });
     let op = c.op();
+    if std::env::var("C14_DEBUG").map(|v| v == "2").unwrap_or(false) {
+        eprintln!("{} {}", em.idx, op);
+    }
     let class = c.class();
     let seen: Vec<usize> = dl.clone();
     let demanded = n >= 1 && c.mwl4 > 0;
-    let body = move |ctx: &mut Ctx| -> String {
-        match c.lt {
-            0 => {
-                let s2 = seen.clone();
-                fit_case::<usize>(&c, ctx, &|k| k * 7 + 3, &move |l: &usize| if *l >= 3 && (*l - 3) % 7 == 0 && s2.contains(&((*l - 3) / 7)) { Some((*l - 3) / 7) } else { None })
+    let stats: RefCell<Vec<String>> = RefCell::new(vec![]);
+    {
+        let stats = &stats;
+        let body = move |ctx: &mut Ctx| -> String {
+            if c.ft32 {
+                fit_lab::<f32>(&c, ctx, stats, &seen)
+            } else {
+                fit_lab::<f64>(&c, ctx, stats, &seen)
             }
-            1 => {
-                let s2 = seen.clone();
-                fit_case::<bool>(&c, ctx, &|k| k == 1, &move |l: &bool| if s2.contains(&(*l as usize)) { Some(*l as usize) } else { None })
-            }
-            _ => {
-                let s2 = seen.clone();
-                fit_case::<String>(&c, ctx, &|k| format!("cls-{}", (b'f' - k as u8) as char), &move |l: &String| {
-                    let b = l.as_bytes();
-                    if b.len() == 5 && l.starts_with("cls-") && b[4] <= b'f' && s2.contains(&((b'f' - b[4]) as usize)) { Some((b'f' - b[4]) as usize) } else { None }
-                })
-            }
+        };
+        // the property promises a tree for every labelled dataset and positive leaf weight; with
+        // min_weight_leaf = 0 (or no rows) the fit may stop at an assert — compared, not demanded
+        if demanded {
+            em.case_valid(op, &class, body)
+        } else {
+            em.case(op, body)
         }
-    };
-    // the property promises a tree for every labelled dataset and positive leaf weight; with
-    // min_weight_leaf = 0 (or no rows) the fit may stop at an assert — compared, not demanded
-    if demanded {
-        em.case_valid(op, &class, body)
-    } else {
-        em.case(op, body)
+    }
+    for k in stats.into_inner() {
+        em.count(&k);
     }
 }
 
+/// streams: 0 lattice, 1 dyadic around the 1e-5 skip, 2 modal ties, 3 empty, 4 neighbouring floats,
+/// 5 decimal weights, 6 large (more rows, more features, more distinct values)
 fn gen_case(rng: &mut Rng, big: bool, stream: u8) -> Case {
-    let nmax = if big { 28 } else { 11 };
+    let ft32 = rng.chance(1, 3);
+    let nmax = if stream == 6 { if big { 70 } else { 40 } } else if big { 28 } else { 11 };
     let n = match stream {
         3 => 0,
+        6 => 12 + rng.below(nmax - 11),
         _ => 1 + rng.below(nmax),
     };
-    let p = 1 + rng.below(3);
+    let p = if stream == 6 { 1 + rng.below(5) } else { 1 + rng.below(3) };
     let k = 2 + rng.below(5); // 2..6 classes
-    let lt = if k == 2 { *rng.pick(&[0u8, 1, 2]) } else { *rng.pick(&[0u8, 2]) };
+    let lt = if k == 2 { *rng.pick(&[0u8, 1, 2, 3]) } else { *rng.pick(&[0u8, 2, 3]) };
     let (xd, vals): (u32, Vec<i64>) = match stream {
         // dyadic values around the 1e-5 equal-value skip: one unit = 2^-20 ≈ 9.5e-7
         1 => (20, vec![0, 10, 11, 21, 32, 42, 1 << 20, (1 << 20) + 10, (1 << 20) + 21, -11, -(1 << 19)]),
-        // neighbouring doubles at magnitude 2^40 (spacing 2^-12 > 1e-5): the midpoint of two
-        // neighbours is not representable and rounds onto one of them
-        4 => (12, vec![1 << 52, (1 << 52) + 1, (1 << 52) + 2, (1 << 52) + 3, (1 << 52) + 5, (1 << 52) + 8, (1 << 52) + 9]),
+        // neighbouring floats (f64 at magnitude 2^40, spacing 2^-12; f32 at magnitude 128, spacing
+        // 2^-16; both spacings > 1e-5): the midpoint of two neighbours is not representable and
+        // rounds onto one of them
+        4 => {
+            let (xd, b) = if ft32 { (16, 1i64 << 23) } else { (12, 1i64 << 52) };
+            (xd, vec![b, b + 1, b + 2, b + 3, b + 5, b + 8, b + 9])
+        }
+        6 => (0, (-6..=12).collect()),
         _ => {
             let r = *rng.pick(&[2i64, 3, 4, 7]);
             (0, (0..=r).map(|v| v - (r / 3)).collect())
@@ -289,30 +550,42 @@ fn gen_case(rng: &mut Rng, big: bool, stream: u8) -> Case {
             _ => if xs[i][p - 1] > vals[vals.len() / 2] { rng.below(2) } else { (2 + rng.below(k - 1)) % k },
         })
         .collect();
-    let (ws, wd) = if stream == 2 {
-        (None, 0) // tie stream: equal weights, duplicates with conflicting labels
+    let (ws, wd, wq) = if stream == 2 {
+        (None, 0, 1) // tie stream: equal weights, duplicates with conflicting labels
+    } else if stream == 5 {
+        // decimal weights 0.1 .. 0.9 (and a few > 1): not representable, the f32 running sums round
+        (Some((0..n).map(|_| *rng.pick(&[1i64, 1, 2, 3, 3, 5, 7, 9, 11, 25])).collect()), 0, 10)
     } else if rng.chance(1, 2) {
-        (None, 0)
+        (None, 0, 1)
     } else {
-        (Some((0..n).map(|_| rng.range(1, 5)).collect()), rng.below(2) as u32)
+        (Some((0..n).map(|_| rng.range(1, 5)).collect()), rng.below(2) as u32, 1)
     };
-    let md = if stream == 4 { Some(1 + rng.below(3)) } else { *rng.pick(&[None, None, Some(0usize), Some(1), Some(2), Some(3), Some(5)]) };
+    let mut md = if stream == 4 { Some(1 + rng.below(3)) } else { *rng.pick(&[None, None, Some(0usize), Some(1), Some(2), Some(3), Some(5)]) };
     let mws4 = *rng.pick(&[8u32, 8, 0, 4, 10, 12, 20]);
     let mwl4 = if rng.chance(1, 25) { 0 } else { *rng.pick(&[4u32, 4, 1, 2, 6, 8, 12]) };
-    let mid = *rng.pick(&[1e-5, 1e-5, f64::EPSILON, 0.01, 0.1, 0.25, 0.3, 0.5]);
+    if mwl4 == 0 && wq != 1 && md.is_none() {
+        // min_weight_leaf = 0 (outside the property's guard) with decimal weights: the right side's
+        // running weight can end at ~1e-7 instead of 0, the impurity assert passes, the split sends
+        // every row left and `fit` recurses on the same rows for ever — a stack overflow aborts the
+        // process and cannot be caught in-process.  Such requests get a depth limit.
+        md = Some(3);
+    }
+    let eps = if ft32 { f32::EPSILON as f64 } else { f64::EPSILON };
+    let mid = *rng.pick(&[1e-5, 1e-5, eps, 0.01, 0.1, 0.25, 0.3, 0.5]);
     let np = rng.below(4);
     let mut pr: Vec<Vec<i64>> = (0..np).map(|_| (0..p).map(|_| *rng.pick(&vals) + if stream == 4 { 0 } else { rng.range(-1, 1) }).collect()).collect();
     if xd == 0 && n > 0 {
         // probes at doubled resolution are not representable with xd = 0; probe the data values and neighbours only
         pr.push(xs[rng.below(n)].clone());
     }
-    Case { entropy: rng.chance(2, 5), md, mws4, mwl4, mid, xd, xs, ys, ws, wd, pr, p, lt }
+    let form = rng.below(N_FORMS);
+    Case { ft32, form, entropy: rng.chance(2, 5), md, mws4, mwl4, mid, xd, xs, ys, ws, wd, wq, pr, p, lt }
 }
 
 pub fn run(em: &mut Em, rng: &mut Rng) {
     let big = em.thorough();
     // fixed corner cases first
-    let base = Case { entropy: false, md: None, mws4: 8, mwl4: 4, mid: 1e-5, xd: 0, xs: vec![], ys: vec![], ws: None, wd: 0, pr: vec![], p: 1, lt: 0 };
+    let base = Case { ft32: false, form: 0, entropy: false, md: None, mws4: 8, mwl4: 4, mid: 1e-5, xd: 0, xs: vec![], ys: vec![], ws: None, wd: 0, wq: 1, pr: vec![], p: 1, lt: 0 };
     let mk = |xs: Vec<Vec<i64>>, ys: Vec<usize>| Case { p: xs.first().map(|r| r.len()).unwrap_or(1), xs, ys, ..base.clone() };
     // one row; constant feature; duplicates with conflicting labels; separable; 4-row modal tie
     run_case(em, mk(vec![vec![1]], vec![0]));
@@ -322,21 +595,39 @@ pub fn run(em: &mut Em, rng: &mut Rng) {
     run_case(em, mk(vec![vec![0], vec![0], vec![1], vec![1]], vec![0, 1, 0, 1]));
     run_case(em, Case { md: Some(0), ..mk(vec![vec![0], vec![1], vec![2], vec![3]], vec![0, 0, 1, 1]) });
     run_case(em, Case { mwl4: 0, ..mk(vec![vec![0, 1], vec![1, 0], vec![2, 3], vec![3, 1], vec![4, 0]], vec![0, 1, 0, 1, 2]) });
+    // the 4-row modal tie in every label type (the tie goes to the smaller *label*) and form
+    for lt in 0..4u8 {
+        for form in 0..N_FORMS {
+            run_case(em, Case { lt, form, ft32: form % 2 == 1, ..mk(vec![vec![0], vec![0], vec![1], vec![1]], vec![0, 1, 0, 1]) });
+        }
+    }
+    // three-way modal tie with six classes, max_depth 0 (one leaf): the smallest label wins
+    for lt in [0u8, 2, 3] {
+        run_case(em, Case { lt, md: Some(0), ..mk(vec![vec![0], vec![1], vec![2], vec![3], vec![4], vec![5], vec![6]], vec![5, 1, 3, 3, 5, 1, 0]) });
+    }
     // witnesses of the two repaired findings (neighbouring doubles at 2^40: the midpoint rounds
-    // onto the lower / the upper value)
+    // onto the lower / the upper value), and the same two at magnitude 128 in f32
     let b52 = 1i64 << 52;
     run_case(em, Case { md: Some(1), xd: 12, ..mk(vec![vec![b52], vec![b52], vec![b52 + 1], vec![b52 + 1]], vec![0, 0, 1, 1]) });
     run_case(em, Case { md: Some(1), xd: 12, ..mk(vec![vec![b52 + 1], vec![b52 + 1], vec![b52 + 2], vec![b52 + 2]], vec![0, 0, 1, 1]) });
+    let b23 = 1i64 << 23;
+    run_case(em, Case { ft32: true, md: Some(1), xd: 16, ..mk(vec![vec![b23], vec![b23], vec![b23 + 1], vec![b23 + 1]], vec![0, 0, 1, 1]) });
+    run_case(em, Case { ft32: true, md: Some(1), xd: 16, ..mk(vec![vec![b23 + 1], vec![b23 + 1], vec![b23 + 2], vec![b23 + 2]], vec![0, 0, 1, 1]) });
     let total = if big { 40000 } else { 3000 };
     for i in 0..total {
         let stream = match i % 20 {
-            0..=11 => 0u8,
-            12..=15 => 1,
-            16..=18 => 2,
+            0..=7 => 0u8,
+            8..=10 => 1,
+            11..=13 => 2,
+            14..=15 => 5,
+            16..=17 => 6,
             _ => if i % 200 == 19 { 3 } else { 4 },
         };
-        em.count(&format!("stream:{}", ["lattice", "dyadic_eps", "modal_tie", "empty", "adjacent_floats"][stream as usize]));
+        em.count(&format!("stream:{}", ["lattice", "dyadic_eps", "modal_tie", "empty", "adjacent_floats", "decimal_weights", "large"][stream as usize]));
         let c = gen_case(rng, big && i % 3 != 0, stream);
         run_case(em, c);
+    }
+    if std::env::var("C14_DEBUG").is_ok() {
+        MAX_DEV.with(|m| eprintln!("C14 max |actual - reported decrease| [gini dyadic, gini decimal, entropy dyadic, entropy decimal] = {:?}", *m.borrow()));
     }
 }
